@@ -8,6 +8,7 @@ from .. import xformrules as X
 def run(check):
     check.guarded("EFFECT", X.rule_push_parity)
     check.guarded("MIRROR", X.rule_mirror)
+    check.guarded("HOOK-ARGS", X.rule_hook_args_source)
     check.guarded("HOOK-SHAPE", X.rule_hook_shape)
     check.guarded("CALL-SIGNATURE", X.rule_call_signature)
     check.guarded("SPREAD-ONCE", X.rule_spread_once)
